@@ -429,18 +429,20 @@ Proof.
 Qed.
 
 (** draw_to_term never reaches a panic site: every terminal size a u16 pair can hold
-    (width 0 included), every list of line widths, every previous line count that leaves
-    room for one more screen *)
+    (width 0 included), every list of line widths, EVERY previous line count (it is capped at the
+    terminal height first, 7d42cff); the new count is at most twice the height *)
 Theorem frame_ok ls tw th n bottom :
-  tw < U16 -> th < U16 -> n + U16 <= USIZE_MAX ->
-  exists n', frame_outcome ls tw th n bottom = Ok n' /\ n' <= th + (if bottom then n else 0).
+  tw < U16 -> th < U16 ->
+  exists n', frame_outcome ls tw th n bottom = Ok n' /\ n' <= th + (if bottom then th else 0).
 Proof.
-  intros Htw Hth Hn. unfold frame_outcome.
+  intros Htw Hth. unfold frame_outcome, frame_clears.
   destruct (paint_ok ls 0 (nlen ls) tw th 0 Htw Hth ltac:(lia)) as [r [E Hr]].
-  set (shift := if bottom && (visual_line_count ls tw <? n) then n - visual_line_count ls tw else 0).
-  assert (Hshift : shift <= (if bottom then n else 0)).
+  set (m := N.min n th).
+  assert (Hm : m <= th) by (subst m; lia).
+  set (shift := if bottom && (visual_line_count ls tw <? m) then m - visual_line_count ls tw else 0).
+  assert (Hshift : shift <= (if bottom then th else 0)).
   { subst shift. destruct bottom; cbn [andb]; [|lia].
-    destruct (visual_line_count ls tw <? n); lia. }
+    destruct (visual_line_count ls tw <? m); lia. }
   assert (Hfs : (match ls with [] => (0 <? shift) && (th <=? shift) | _ :: _ => false end && (shift =? 0)) = false).
   { destruct ls; [|reflexivity]. destruct (N.eqb_spec shift 0) as [->|]; [reflexivity | apply andb_false_r]. }
   rewrite Hfs, E.
@@ -451,11 +453,11 @@ Qed.
 
 Theorem draw_ok st sn tw th n bottom O :
   StyleOK st -> tab_sane st -> snap_ok sn -> oracles_ok O ->
-  tw < U16 -> th < U16 -> n + U16 <= USIZE_MAX ->
+  tw < U16 -> th < U16 ->
   exists n', draw_outcome st sn tw th n bottom O = Ok n'.
 Proof.
-  intros Hs Htab Hsn HO Htw Hth Hn. unfold draw_outcome. rewrite render_ok by assumption. cbn [oseq].
-  destruct (frame_ok (o_lines O) tw th n bottom Htw Hth Hn) as [n' [E _]]. exists n'. exact E.
+  intros Hs Htab Hsn HO Htw Hth. unfold draw_outcome. rewrite render_ok by assumption. cbn [oseq].
+  destruct (frame_ok (o_lines O) tw th n bottom Htw Hth) as [n' [E _]]. exists n'. exact E.
 Qed.
 
 (** * the main statements *)
@@ -519,24 +521,28 @@ Proof.
 Qed.
 
 Theorem accepted_draws c ops st :
-  build c ops = BOk st -> tab_sane st ->
+  Forall builder_op ops -> build c ops = BOk st ->
   forall sn tw th n bottom O, snap_ok sn -> oracles_ok O ->
-    tw < U16 -> th < U16 -> n + U16 <= USIZE_MAX ->
+    tw < U16 -> th < U16 ->
     exists n', draw_outcome st sn tw th n bottom O = Ok n'.
 Proof.
-  intros Hb Htab sn tw th n bottom O Hsn HO Htw Hth Hn.
+  intros Hf Hb sn tw th n bottom O Hsn HO Htw Hth.
+  apply draw_ok; try assumption; [exact (build_ok _ _ _ Hb) | exact (build_tab _ _ _ Hf Hb)].
+Qed.
+
+Theorem accepted_draws_any_tab c ops st :
+  build c ops = BOk st -> tab_sane st ->
+  forall sn tw th n bottom O, snap_ok sn -> oracles_ok O ->
+    tw < U16 -> th < U16 ->
+    exists n', draw_outcome st sn tw th n bottom O = Ok n'.
+Proof.
+  intros Hb Htab sn tw th n bottom O Hsn HO Htw Hth.
   apply draw_ok; try assumption. exact (build_ok _ _ _ Hb).
 Qed.
 
 (** REFUTED beyond the known class [~ tab_sane]: a bar whose tab width exceeds isize::MAX
     (ProgressBar::with_tab_width(usize::MAX)) and whose template holds a with_key key panics in
     the draw (capacity overflow in TabRewriter::write_str) although every builder call succeeded. *)
-Definition huge_tab_ops : list bop := [OWithKey [99; 107]; OSetTab 18446744073709551615].
-Definition huge_tab_template : list N := [123; 99; 107; 125].      (* "{ck}" *)
-Definition plain_snap : snapshot := mksnap 0 (Some 3) 1 false (mkmt 1 1) (mkmt 0 0) false false.
-Definition plain_oracles : oracles :=
-  mkor (fun _ => mkmt 1 1) (fun _ => true) (fun c => mkfbar 0 false 0) (fun _ => 1) true [1].
-
 Theorem huge_tab_refuted :
   exists st, build (CWithTemplate huge_tab_template) huge_tab_ops = BOk st
     /\ StyleOK st /\ snap_ok plain_snap /\ oracles_ok plain_oracles
@@ -659,10 +665,6 @@ Qed.
 
 (** what is not accepted is refused at once: a panic at one of the six builder sites, or
     Err(TemplateError) for a template *)
-Definition builder_site (s : N) : Prop :=
-  s = SITE_WIDTH_UNEQUAL \/ s = SITE_TICK_CHARS \/ s = SITE_TICK_STRINGS
-  \/ s = SITE_PCHARS_LT2 \/ s = SITE_PCHARS_ZERO \/ s = SITE_PCHARS_TAB.
-
 Theorem bstep_rejects st o :
   ~ accepts o ->
   match o with
@@ -697,10 +699,7 @@ Qed.
 
 (** * agreement with the models of C12 (Padded.v) and C11 (Keys.v), which transcribe the same
       Rust functions independently: the panic condition / the selected string coincide *)
-Require IndModel.Padded IndModel.Keys.
-
-Definition conv_align (a : Padded.align) : align :=
-  match a with Padded.ALeft => ALeft | Padded.ACenter => ACenter | Padded.ARight => ARight end.
+Require IndModel.Keys.
 
 Lemma padded_sites_agrees (s : Padded.str) w a tr :
   is_ok (Padded.padded s w a tr)
@@ -748,11 +747,152 @@ Proof.
 Qed.
 
 (** * the debug_assert of TabExpandedString::expanded (state.rs:386) *)
+Lemma tes_made_inv v b : tes_made v b -> v = VNoTabs -> b = false.
+Proof.
+  induction 1 as [b| |v b Hm IH]; intros Hv.
+  - destruct b; [discriminate | reflexivity].
+  - reflexivity.
+  - exact (IH Hv).
+Qed.
+
 Theorem notabs_assert_unreachable st :
-  (forall b, expanded_new st b <> Panic SITE_NOTABS_ASSERT)
+  (forall v b, tes_made v b -> expanded_site st v b <> Panic SITE_NOTABS_ASSERT)
   /\ expanded_site st VNoTabs true = Panic SITE_NOTABS_ASSERT.
 Proof.
-  split; [|reflexivity]. intros b. rewrite expanded_new_spec. unfold tab_site.
-  destruct (b && (ISIZE_MAX <? st_tab st)); [|discriminate].
-  intros H. inversion H.
+  split; [|reflexivity]. intros v b Hm. destruct v; cbn [expanded_site].
+  - rewrite (tes_made_inv _ _ Hm eq_refl). discriminate.
+  - unfold tab_site. cbn [andb]. destruct (ISIZE_MAX <? st_tab st); [|discriminate].
+    intros H. inversion H.
+Qed.
+
+(** * [frame_outcome] returns the count of the shared value model of draw_to_term (Draw.v, the
+      model C01/C19 tie to the code): for frames of Bar lines on a terminal of non-zero width *)
+Require IndModel.Draw.
+Module D := IndModel.Draw.
+Module T := IndModel.Text.
+
+Lemma wh_agree l W : W <> 0 -> wrapped_height (T.lwidth l) W = T.wrapped_height l W.
+Proof.
+  intros HW. unfold wrapped_height, T.wrapped_height.
+  destruct (N.eqb_spec W 0); [contradiction | reflexivity].
+Qed.
+
+Lemma plain_fold_add (f : T.line -> N) ls : forall x,
+  fold_left (fun a l => a + f l) ls x = x + fold_left (fun a l => a + f l) ls 0.
+Proof.
+  induction ls as [|l r IH]; intros x; cbn [fold_left]; [lia|].
+  rewrite (IH (x + f l)), (IH (0 + f l)). lia.
+Qed.
+
+Lemma vlc_agree ls W : W <> 0 ->
+  visual_line_count (map T.lwidth ls) W = N.min USIZE_MAX (T.visual_line_count ls W).
+Proof.
+  intros HW. unfold visual_line_count, T.visual_line_count.
+  assert (G : forall acc, acc <= USIZE_MAX ->
+    fold_left (fun a c => sat_addu a (wrapped_height c W)) (map T.lwidth ls) acc
+    = N.min USIZE_MAX (fold_left (fun a l => a + T.wrapped_height l W) ls acc)).
+  { induction ls as [|l r IH]; intros acc Hacc; cbn [fold_left map]; [lia|].
+    rewrite IH by (unfold sat_addu; lia).
+    rewrite wh_agree by exact HW. unfold sat_addu.
+    rewrite (plain_fold_add _ r (N.min USIZE_MAX (acc + T.wrapped_height l W))).
+    rewrite (plain_fold_add _ r (acc + T.wrapped_height l W)). lia. }
+  apply G. unfold USIZE_MAX, U64MAX. lia.
+Qed.
+
+(* one iteration of the loop once the sites are known not to fire *)
+Lemma paint_cons c r idx total tw th real :
+  tw < U16 -> th < U16 -> real <= th ->
+  paint (c :: r) idx total tw th real
+  = if th <? real + wrapped_height c tw then Ok real
+    else paint r (idx + 1) total tw th (real + wrapped_height c tw).
+Proof.
+  intros Htw Hth Hreal. cbn [paint]. unfold sat_addu.
+  destruct (N.ltb_spec th (N.min USIZE_MAX (real + wrapped_height c tw))) as [Hb|Hfit];
+    destruct (N.ltb_spec th (real + wrapped_height c tw)) as [Hb'|Hfit']; try reflexivity;
+    try (unfold USIZE_MAX, U64MAX, U16 in *; lia).
+  destruct (N.ltb_spec USIZE_MAX (real + wrapped_height c tw)) as [Hov|_].
+  { unfold USIZE_MAX, U64MAX, U16 in *. lia. }
+  assert (Hfill : (ISIZE_MAX <? sat_mulu (wrapped_height c tw) tw - c) = false).
+  { apply N.ltb_ge. unfold sat_mulu.
+    destruct (N.eq_dec tw 0) as [->|Hnz].
+    - rewrite N.mul_0_r. unfold ISIZE_MAX. lia.
+    - pose proof (wrapped_height_fill c tw ltac:(lia)).
+      unfold ISIZE_MAX, USIZE_MAX, U64MAX, U16 in *. lia. }
+  rewrite Hfill, andb_false_r. reflexivity.
+Qed.
+
+Lemma paint_agree ls W H : W <> 0 -> W < U16 -> H < U16 ->
+  forallb T.is_bar ls = true ->
+  forall idx total real, real <= H ->
+    paint (map T.lwidth ls) idx total W H real = Ok (snd (D.paint ls idx total W H real)).
+Proof.
+  intros HW HW16 HH. induction ls as [|l r IH]; intros Hb idx total real Hreal; [reflexivity|].
+  cbn [forallb] in Hb. apply andb_prop in Hb. destruct Hb as [Hl Hr].
+  cbn [map]. rewrite paint_cons by assumption. rewrite wh_agree by exact HW.
+  cbn [D.paint]. rewrite Hl. cbn [andb].
+  destruct (N.ltb_spec H (real + T.wrapped_height l W)) as [Hbr|Hfit]; [reflexivity|].
+  rewrite IH by (try assumption; lia).
+  destruct (D.paint r (idx + 1) total W H (real + T.wrapped_height l W)) as [ops rf]. reflexivity.
+Qed.
+
+Lemma paint_pad_agree ls W H shift : forallb T.is_bar ls = true ->
+  forall idx total real,
+    let '(_, rf, pf) := D.paint_pad ls idx total W H real shift true in
+    rf = snd (D.paint ls idx total W H real) /\ pf = true.
+Proof.
+  induction ls as [|l r IH]; intros Hb idx total real; [split; reflexivity|].
+  cbn [forallb] in Hb. apply andb_prop in Hb. destruct Hb as [Hl Hr].
+  cbn [D.paint_pad D.paint]. rewrite Hl. cbn [andb orb negb].
+  destruct (H <? real + T.wrapped_height l W); [split; reflexivity|].
+  specialize (IH Hr (idx + 1) total (real + T.wrapped_height l W)).
+  destruct (D.paint_pad r (idx + 1) total W H (real + T.wrapped_height l W) shift true) as [[ops rf] pf].
+  destruct (D.paint r (idx + 1) total W H (real + T.wrapped_height l W)) as [ops' rf'].
+  exact IH.
+Qed.
+
+Lemma starts_with_text_bars ls : forallb T.is_bar ls = true -> D.starts_with_text ls = false.
+Proof.
+  destruct ls as [|l r]; [reflexivity|]. cbn [forallb D.starts_with_text].
+  intros H. apply andb_prop in H. destruct H as [H _]. rewrite H. reflexivity.
+Qed.
+
+Theorem frame_agrees_with_draw_model (ls : list T.line) (W H n : N) (bottom below : bool) :
+  forallb T.is_bar ls = true -> 0 < W -> W < U16 -> H < U16 ->
+  frame_outcome (map T.lwidth ls) W H n bottom
+  = Ok (snd (fst (D.draw_to_term ls n (if bottom then D.Bottom else D.Top) below W H))).
+Proof.
+  intros Hb HW0 HW HH. assert (HWn : W <> 0) by lia.
+  unfold frame_outcome, frame_clears, D.draw_to_term.
+  rewrite vlc_agree by exact HWn.
+  set (m := N.min n H). set (full := T.visual_line_count ls W).
+  assert (Hm : m <= H) by (subst m; lia).
+  set (shift0 := match (if bottom then D.Bottom else D.Top) with
+                 | D.Bottom => if full <? m then m - full else 0
+                 | D.Top => 0 end).
+  assert (Hs : (if bottom && (N.min USIZE_MAX full <? m) then m - N.min USIZE_MAX full else 0) = shift0).
+  { subst shift0. destruct bottom; cbn [andb]; [|reflexivity].
+    destruct (N.ltb_spec (N.min USIZE_MAX full) m); destruct (N.ltb_spec full m);
+      unfold USIZE_MAX, U64MAX, U16 in *; lia. }
+  rewrite Hs.
+  assert (Hsh : shift0 <= H).
+  { subst shift0. destruct bottom; [destruct (full <? m)|]; lia. }
+  assert (Hfs : (match map T.lwidth ls with [] => (0 <? shift0) && (H <=? shift0) | _ :: _ => false end
+                 && (shift0 =? 0)) = false).
+  { destruct (map T.lwidth ls); [|reflexivity].
+    destruct (N.eqb_spec shift0 0) as [->|]; [reflexivity | apply andb_false_r]. }
+  rewrite Hfs. unfold nlen. rewrite map_length.
+  rewrite (paint_agree ls W H HWn HW HH Hb 0 (N.of_nat (length ls)) 0) by lia.
+  pose proof (paint_pad_agree ls W H shift0 Hb 0 (N.of_nat (length ls)) 0) as Hpp.
+  rewrite (starts_with_text_bars ls Hb). cbn [negb].
+  destruct (D.paint ls 0 (N.of_nat (length ls)) W H 0) as [po re] eqn:Ep. cbn [snd] in *.
+  assert (Hre : re <= H).
+  { destruct (paint_ok (map T.lwidth ls) 0 (N.of_nat (length ls)) W H 0 HW HH ltac:(lia)) as [r0 [E0 H0]].
+    rewrite (paint_agree ls W H HWn HW HH Hb 0 (N.of_nat (length ls)) 0) in E0 by lia.
+    rewrite Ep in E0. cbn [snd] in E0. inversion E0; subst; exact H0. }
+  destruct (N.eqb_spec shift0 0) as [Hz|Hnz].
+  - rewrite Hz. cbn [fst snd]. rewrite N.add_0_r.
+    destruct (N.ltb_spec USIZE_MAX re); [unfold USIZE_MAX, U64MAX, U16 in *; lia | reflexivity].
+  - destruct (D.paint_pad ls 0 (N.of_nat (length ls)) W H 0 shift0 true) as [[po' re'] pf].
+    destruct Hpp as [-> ->]. cbn [fst snd].
+    destruct (N.ltb_spec USIZE_MAX (re + shift0)); [unfold USIZE_MAX, U64MAX, U16 in *; lia | reflexivity].
 Qed.
